@@ -94,6 +94,15 @@ def make_runner(h):
                             return
                         ex.events.append(ev)
                         results.append(('event:' + ev.name, 'ok', None))
+                    if h.get('loop_close'):
+                        # the consumer abandons the loop at the event it has just been handed
+                        try:
+                            _gen.close()
+                            results.append(('loop', 'abandoned', None))
+                        except S.Abort:
+                            raise
+                        except BaseException as error:  # noqa
+                            results.append(('loop', 'abandon-raised', error))
                 sc.spawn(0, loop_body)
             if h.get('closer'):
                 def closer_body(results, _gen=gen, _ws=ws, _how=h['closer']):
